@@ -12,6 +12,7 @@ RoutingPolicyStatement objects (subclasses created here) that note the last obje
 dispatch attribute was read; an error is attributed to an item only if that object is a
 local variable of a frame of the traceback.  No private generator function is called.
 """
+import inspect
 import sys
 import warnings
 
@@ -111,15 +112,18 @@ def instrument(policies):
 
 def error_tag(exc):
     """tag of the item being processed when exc was raised: the last touched traced object,
-    provided it is a local of some frame of the traceback."""
+    provided it is a local of some generator frame of the traceback."""
     if Trace.cur is None:
         return None
     tag, obj = Trace.cur
     tb = exc.__traceback__
     while tb is not None:
-        for v in tb.tb_frame.f_locals.values():
-            if v is obj:
-                return tag
+        # only frames that themselves yield rows count: a helper that merely scans the policies
+        # (get_used_*_lists) is a plain function and belongs to no item
+        if tb.tb_frame.f_code.co_flags & inspect.CO_GENERATOR:
+            for v in tb.tb_frame.f_locals.values():
+                if v is obj:
+                    return tag
         tb = tb.tb_next
     return None
 
